@@ -3396,13 +3396,7 @@ class SetInstance(object):
         return True
     @cut_traceback
     def __len__(wrapper):
-        attr = wrapper._attr_
-        obj = wrapper._obj_
-        if obj._status_ in del_statuses: throw_object_was_deleted(obj)
-        if obj._vals_ is None: throw_db_session_is_over('read value of', obj, attr)
-        setdata = obj._vals_.get(attr)
-        if setdata is None or not setdata.is_fully_loaded: setdata = attr.load(obj)
-        return len(setdata)
+        return len(wrapper.copy())  # the whole collection is observed: copy() records the read of every item
     @cut_traceback
     def count(wrapper):
         attr = wrapper._attr_
